@@ -9,6 +9,35 @@ CORR = ["corr_results", "corr_inbox"]
 SPEC = ["spec_once", "spec_incarnation", "spec_calls"]
 PREMISE = ["premise_hist", "premise_creations"]
 
+# incarnation guard table: every outgoing operation of gen.Connection attempted with identifiers of the
+# previous incarnation after a restart of the peer (netfail guard, one restart per case)
+G_IMPORTS = ("From Ergo Require Import Common.Base Rel.Amap Rel.Model NetFail.Model NetFail.Guard NetFail.GuardCases.\n"
+             "Local Open Scope N_scope.")
+G_CORR = ["corr_guard"]
+G_SPEC = ["spec_guard"]
+G_PREMISE = ["premise_guard"]
+
+
+def _guard(c, name, n, seed=None, corr=G_CORR, replay=None, stream=0):
+    env = {"VERIF_SEED": str(seed)} if seed is not None else None
+    args = ["guard", "-replay", replay] if replay else ["guard", "-n", str(n), "-stream", str(stream)]
+    out = c.harness("netfail", args, timeout=600, env=env)
+    if not out:
+        return
+    c.cases(name, out, G_IMPORTS, "gcase", corr=list(corr), spec=G_SPEC, premise=G_PREMISE)
+    if not replay and c.cov["correspondence"].get(name, {}).get("nontrivial", 0) == 0 and not c.violations:
+        c.broken.append({"kind": "coverage", "what": "no guard case reached the situation of the theorems (twins with equal numeric ids, "
+                         "different creations, every table operation attempted with a stale and a current identifier)"})
+
+
+def _replay_kind(path):
+    import json
+    try:
+        d = json.load(open(path))
+        return (d.get("case") or d).get("kind", "")
+    except Exception:
+        return ""
+
 
 def _known_tags(c):
     """Input classes of known findings are generated only when known_findings.json lists them
@@ -57,7 +86,18 @@ def run(c):
     ok, log = vlib.coq_make(["theories/NetFail/Cases.vo"])
     if not ok:
         c.broken.append({"kind": "proof", "what": "Coq build of theories/NetFail/Cases.v failed", "detail": log[-2500:]})
-    n = 150 if c.tier == "quick" else 1600
+    n = 140 if c.tier == "quick" else 1600
+    ng = 12 if c.tier == "quick" else 96
+    if c.replay and _replay_kind(c.replay) == "guard":
+        _guard(c, "guard", 1, replay=c.replay)
+        return
+    _guard(c, "guard", ng)
+    if c.broken and not c.violations and not c.replay:
+        keep = list(c.broken)
+        _guard(c, "guard-search", ng * 4, seed=c.seed + 7919, corr=(), stream=1)
+        c.broken = keep + [b for b in c.broken if b not in keep]
+    if c.violations:
+        return
     _run(c, "hist", n)
     if c.broken and not c.violations and not c.replay:
         # something no longer checks: spend the extra search budget on the property monitors only
@@ -78,5 +118,14 @@ def run(c):
         "notifications are collected after the mailboxes have been quiet for 100 ms (at most 2 s): a notification arriving later would be missed",
         "creations of successive incarnations differ (guard of C14_incarnation_partial): node creation is time.Now().Unix() seconds; "
         "the same-second restart class is generated only when known_findings.json lists its tag",
+        "guard table (netfail guard): the rows of NetFail/Guard.v were read off net/proto/connection.go by hand (each Go line is quoted there); "
+        "the tie is per row: every one of the fifteen methods that take a stamped identifier of the peer is called on the REAL connection object "
+        "(type assertion of the gen.RemoteNode to gen.Connection) and through the process API with identifiers of the previous incarnation "
+        "(pids, aliases, the (caller, ref) pair of a request the previous incarnation made) and of the current one; observed are the returned error, "
+        "the connection's MessagesOut counter around the call (frames written) and what the same-numbered processes of the new incarnation received",
+        "the restarted peer runs in the same OS process as before, so the alias / ref counters restart from the same value (startUniqID is a package variable) "
+        "and the alias ids of the twins coincide as the pids do; after a restart of the OS process only the pids would coincide",
+        "a response written for a stale (pid, ref) pair would be dropped by the twin unless it is waiting for a response itself: for SendResponse / SendResponseError "
+        "the observation is the returned error and the frame counter, not the twin's mailbox",
         "the race between the answer to a link/monitor request and the loss of the connection inside RouteLink* (relation inserted after CleanupNode ran) is outside the model: operations are atomic with respect to node-down",
     ]
